@@ -284,6 +284,43 @@ pub fn candidates(tier: Tier) -> Vec<Cand> {
             push(E::bin(BinOp::Eq, E::Rec(vec![("f".into(), x.clone())]), E::Rec(vec![("f".into(), y.clone())])), false, &mut out, &view_scope);
         }
     }
+    // --- every extension function over extension-typed and wrongly typed operands ---
+    {
+        let xs = [
+            E::ext("ip", vec![E::str("10.0.0.1")]),
+            E::ext("decimal", vec![E::str("1.5")]),
+            E::ext("datetime", vec![E::str("2024-01-01")]),
+            E::ext("duration", vec![E::str("1h")]),
+            E::Long(1),
+            E::str("10.0.0.1"),
+            p(),
+            E::attr(c(), "n"),
+        ];
+        for (name, arity) in refsem::ext::EXT_FUNCS {
+            for x in &xs {
+                if *arity == 1 {
+                    // boolean-valued observers directly, others through `==` with themselves
+                    let call = E::ext(name, vec![x.clone()]);
+                    push(call.clone(), false, &mut out, &view_scope);
+                    push(E::bin(BinOp::Eq, call.clone(), call.clone()), false, &mut out, &view_scope);
+                    push(E::bin(BinOp::Lt, call.clone(), E::Long(5)), false, &mut out, &view_scope);
+                } else {
+                    for y in &xs {
+                        let call = E::ext(name, vec![x.clone(), y.clone()]);
+                        push(call.clone(), false, &mut out, &view_scope);
+                        push(E::bin(BinOp::Eq, call.clone(), call.clone()), false, &mut out, &view_scope);
+                    }
+                }
+            }
+        }
+        // < and <= on extension values
+        for x in &xs {
+            for y in &xs {
+                push(E::bin(BinOp::Lt, x.clone(), y.clone()), false, &mut out, &view_scope);
+                push(E::bin(BinOp::Ge, x.clone(), y.clone()), false, &mut out, &view_scope);
+            }
+        }
+    }
     // --- comparisons between set-typed attributes of different element types (all of them are
     // inhabited by the empty set, so none of these may be typed False) ---
     {
